@@ -7,6 +7,8 @@ src = f"/tmp/seed/{sid}/out"
 dst = f"/verif/seeded/{name}"
 os.makedirs(dst, exist_ok=True)
 for f in os.listdir(src):
+    if f.startswith("rusty_basic"):
+        continue  # baseline binaries the seeder left behind
     if os.path.isfile(os.path.join(src, f)):
         shutil.copy(os.path.join(src, f), dst)
 meta = {}
